@@ -55,7 +55,7 @@ func (e *Engine) checkWriters(ws WriterSpec) (offenders []string, sites int) {
 					if ws.Kind == "map" {
 						// re-assignment of the map variable itself
 						if g, ok := x.Addr.(*ssa.Global); ok && g.Pkg != nil && g.Pkg.Pkg.Path()+"."+g.Name() == ws.Target {
-							if !(fn.Synthetic != "" && fn.Name() == "init") {
+							if !isInitFunc(fn) {
 								hit = true
 							}
 						}
